@@ -2,14 +2,16 @@
 # try_seed.sh <patch.diff> <ID> [tier]: apply a seeded change to /repo, run the check, undo it.
 set -u
 P="$(readlink -f "$1")"; ID="$2"; TIER="${3:-quick}"
-cd /verif
-git -C /repo apply "$P" || { echo "patch does not apply to /repo"; exit 2; }
+# VERIF_DIR / REPO_DIR: run against scratch copies (harness re-pointed at REPO_DIR) instead of /verif and /repo
+V="${VERIF_DIR:-/verif}"; R="${REPO_DIR:-/repo}"
+cd "$V"; mkdir -p work
+git -C "$R" apply "$P" || { echo "patch does not apply"; exit 2; }
 # the evidence file is rewritten by every run: keep the one from the unchanged tree
 cp -f evidence/$ID.json work/evidence-$ID.keep 2>/dev/null
 start=$(date +%s)
 out=$(./check "$ID" "$TIER" 2>&1); rc=$?
 end=$(date +%s)
-git -C /repo checkout -- .
+git -C "$R" checkout -- .
 cp -f evidence/$ID.json work/evidence-$ID.seeded 2>/dev/null
 [ -f work/evidence-$ID.keep ] && mv -f work/evidence-$ID.keep evidence/$ID.json
 echo "$out" | grep -E "VIOLATION|signature=|INCONCLUSIVE" | head -4
